@@ -47,7 +47,7 @@ inductive Obs where
 
 /-- the labels no trace point sees -/
 def hiddenLabels (nSenders : Nat) : List Label :=
-  [.callbackReturns, .callbackPanics, .viewReturns, .viewPanics, .writerReturns, .tick, .decoded, .readError,
+  [.callbackReturns, .callbackPanics, .viewReturns, .viewPanics, .initPanics, .firstViewPanics, .writerReturns, .tick, .decoded, .readError,
    .elRecvSig, .elRecvReader, .elRecvErr, .elCtxExit, .elCmdHandOver, .elCmdAbort, .signal true, .signal false] ++
   (List.range nSenders).map Label.elRecvSender ++ (List.range nSenders).map Label.sendAbort
 
